@@ -1,7 +1,7 @@
 #!/venv/bin/python
 """Runs every check against every collected behaviour-preserving refactoring: all must stay silent (exit 0).
 usage: refac_matrix.py [--props=C05,C14] [--write] [ids...]   (--write records the result in refactorings/*/meta.json)"""
-import json, multiprocessing as mp, shutil, subprocess, sys, tempfile
+import json, multiprocessing as mp, os, shutil, subprocess, sys, tempfile
 from pathlib import Path
 
 VERIF = Path(__file__).resolve().parents[1]
@@ -42,12 +42,12 @@ def main():
     for a in sys.argv[1:]:
         if a.startswith("--props="):
             PIDS = a.split("=", 1)[1].split(",")
-    ds = [d for d in sorted((VERIF / "refactorings").iterdir()) if (d / "meta.json").exists() and (not args or d.name in args)]
+    ds = [d for d in sorted((VERIF / os.environ.get("REFAC_DIR", "refactorings")).iterdir()) if (d / "meta.json").exists() and (not args or d.name in args)]
     with mp.get_context("fork").Pool(16) as pool:
         results = pool.map(one, ds)
     noisy = 0
     for name, out in results:
-        meta_p = VERIF / "refactorings" / name / "meta.json"
+        meta_p = VERIF / os.environ.get("REFAC_DIR", "refactorings") / name / "meta.json"
         meta = json.loads(meta_p.read_text())
         if "--write" in sys.argv:
             meta["checks"] = {"silent": not out, "alarms": out}
